@@ -246,15 +246,18 @@ def colored_render_to_stream(
                     stream.write(str(color))
 
             elif isinstance(sdoc, SAnnotationPop):
-                try:
-                    colorstack.pop()
-                except IndexError:
-                    continue
+                # Only syntax tokens pushed a color; other annotations
+                # (e.g. comments attached to values) must not pop one.
+                if isinstance(sdoc.value, Token):
+                    try:
+                        colorstack.pop()
+                    except IndexError:
+                        continue
 
-                if colorstack:
-                    stream.write(str(colorstack[-1]))
-                else:
-                    stream.write(str(colorful.reset))
+                    if colorstack:
+                        stream.write(str(colorstack[-1]))
+                    else:
+                        stream.write(str(colorful.reset))
 
     if colorstack:
         stream.write(str(colorful.reset))
